@@ -64,9 +64,73 @@ let fresh seen o =
     | _ -> [] in
   List.iter (fun (i, _) -> let i = int_of_z i in
               if i < 0 || i >= 4096 || Hashtbl.mem seen i then raise Bad; Hashtbl.add seen i ()) ins
+(* ---- concurrent cases: conc I: items / thread ops ; ... / ... / S: schedule ---- *)
+let parse_cop w =
+  match w with
+  | o :: v :: "0" :: t when String.length v = 1 && String.contains "ldftuv" v.[0] ->
+    let tr = String.contains "tuv" v.[0] in
+    (match o, t with
+     | "pf", [id; p] -> CPushFront (item id p)
+     | "pb", [id; p] -> CPushBack (item id p)
+     | "of", [] -> CPopFront tr
+     | "ob", [] -> CPopBack tr
+     | "cf", (_ :: _ as t) -> CChainFront (items t)
+     | "cb", (_ :: _ as t) -> CChainBack (items t)
+     | "ps", [id; p] -> CPushSorted (item id p)
+     | "cs", t -> CChainSorted (items t)
+     | "so", [] -> CSort
+     | "ie", [] -> CIsEmpty
+     | "un", [] -> CUnchain
+     | _ -> raise Bad)
+  | _ -> raise Bad
+let cop_items = function
+  | CPushFront x | CPushBack x | CPushSorted x -> [x]
+  | CChainFront xs | CChainBack xs | CChainSorted xs -> xs
+  | _ -> []
+let pcres = function
+  | CNone | CBusy -> "-"
+  | CItem x -> pitem x
+  | CBool b -> if b then "1" else "0"
+  | CItems l -> "[" ^ pitems l ^ "]"
+let run_conc line =
+  let secs = List.map String.trim (String.split_on_char '/' (String.sub line 5 (String.length line - 5))) in
+  let n = List.length secs in
+  if n < 3 then raise Bad;
+  let init = match words (List.hd secs) with "I:" :: t -> items t | _ -> raise Bad in
+  let progs = List.map (fun sec ->
+      let ops = List.map words (String.split_on_char ';' sec) in
+      if ops = [] || List.length ops > 16 then raise Bad;
+      List.map parse_cop ops) (List.filteri (fun i _ -> i > 0 && i < n - 1) secs) in
+  let sched = match words (List.nth secs (n - 1)) with "S:" :: t -> List.map int_of_string t | _ -> raise Bad in
+  let seen = Hashtbl.create 64 in
+  List.iter (fun (i, _) -> let i = int_of_z i in
+              if i < 0 || i >= 4096 || Hashtbl.mem seen i then raise Bad; Hashtbl.add seen i ())
+    (init @ List.concat_map (fun p -> List.concat_map cop_items p) progs);
+  let nt = List.length progs in
+  let c = ref (cinit init progs) in
+  let is_done th = th.todo = [] in
+  let st t = if t >= 0 && t < nt && not (is_done (List.nth !c.thrs t)) then c := cstep !c (nat_of_int t) in
+  List.iter st sched;
+  let k = ref 0 and dl = ref false in
+  while not (List.for_all is_done !c.thrs) && not !dl do
+    for t = 0 to nt - 1 do st t done;
+    incr k; if !k > 1000 then dl := true
+  done;
+  let c = !c in
+  let thr_str t th =
+    "T" ^ string_of_int t ^ String.concat "" (List.map (fun (((_, r), i), e) ->
+        " " ^ pcres r ^ "@" ^ string_of_int (int_of_nat i) ^ "-" ^ string_of_int (int_of_nat e)) th.hist)
+    ^ String.concat "" (List.map (fun _ -> " ?") th.todo) in
+  String.concat " / " (List.mapi thr_str c.thrs)
+  ^ " / L " ^ pitems c.lst ^ (if c.lock <> None then " LOCKED" else "")
+  ^ " / D " ^ pitems (List.rev c.lst)
+  ^ " / steps" ^ String.concat "" (List.map (fun th -> " " ^ string_of_int (int_of_nat th.nsteps)) c.thrs)
+  ^ (if !dl then " DEADLOCK" else "")
+
 let () =
   iter_cases Sys.argv.(1) (fun line ->
     try
+      if String.length line >= 5 && String.sub line 0 5 = "conc " then run_conc line else
       let ops = List.filter (fun w -> w <> []) (List.map words (String.split_on_char ';' line)) in
       let seen = Hashtbl.create 64 in
       let st = ref init in
